@@ -124,7 +124,7 @@ class ValidRange(Adapter):
 
 def gen_valid(tier, rng):
     cases = []
-    spans = [(2, 8), (None, 8), (2, None), (None, None), (5, 5), (8, 2)]
+    spans = [(2, 8), (None, 8), (2, None), (None, None), (5, 5), (8, 2), (-3, 0), (0, 5), (None, 0)]   # a bound may be 0 (falsy)
     incl = [(None, None), (True, True), (True, False), (False, True), (False, False)]
     for kind in ("float", "datetime"):
         step = G if kind == "float" else 1
